@@ -95,6 +95,33 @@ func extPutUint(width int) externFn {
 			}
 			nv := e.maybeNameForce(t, sInt, "arrv")
 			e.store(st, vo.ptr, e.fromLeaves(vo.ptr.pointee(), []string{nv}))
+			// views are snapshots of the variable: a view cut BEFORE this write (the operand
+			// itself, e.g. `b := make([]byte, 8); PutUint64(b, v); return b`) would keep the old
+			// contents. Every register of this frame that holds a whole view of the variable is
+			// re-pointed to a fresh view of the new value.
+			if vo.lo == "0" && b.Off == "0" {
+				r2 := ""
+				for k, rv := range fr.regs {
+					sl, ok := rv.(*Slice)
+					if !ok || sl.Arr != b.Arr || sl.Off != "0" || sl.Len != fmt.Sprint(vo.n) {
+						continue
+					}
+					if r2 == "" {
+						r2 = e.alloc(st)
+						e.arrayViewAt[r2] = vo
+						if e.arrayViews != nil {
+							if p, ok := e.arrayViews[b.Arr]; ok {
+								e.arrayViews[r2] = p
+							}
+						}
+					}
+					ns := *sl
+					ns.Arr = r2
+					fr.regs[k] = &ns
+					e.declBytesFuncs()
+					e.assume(mkImp(st.pc, mkEq(e.contentTerm(st, &ns), sx("|abytes!|", nv))))
+				}
+			}
 		}
 		return nil
 	}
